@@ -233,11 +233,19 @@ class Reader:
     def parse_initial_value(self):
         """Parse a part of the initial value of a variable.
 
-        This is either a string of hex bytes, or the address of a label.
+        This is either a string of hex bytes, or the address of a label,
+        optionally with an offset in bytes.
         """
         if self.peek == "&":
             self.consume("&")
-            return (ir.ptr, self.parse_id())
+            name = self.parse_id()
+            if self.peek == "+":
+                self.consume("+")
+                return (ir.ptr, name, self.parse_integer())
+            elif self.peek == "-":
+                self.consume("-")
+                return (ir.ptr, name, -self.parse_integer())
+            return (ir.ptr, name)
         else:
             return unhexlify(self.consume("STRING")[1])
 
